@@ -25,6 +25,30 @@ type NFAComposite struct {
 	E *nfa.State
 }
 
+// HasNonGreedy returns true if any of the states of the composite is
+// non-greedy.
+func (c NFAComposite) HasNonGreedy() bool {
+	visited := set.Set[*nfa.State]{}
+	pending := stack.Stack[*nfa.State]{}
+	pending.Push(c.B)
+	for !pending.Empty() {
+		s := pending.Pop()
+		if visited.Has(s) {
+			continue
+		}
+		visited.Add(s)
+		if s.NonGreedy {
+			return true
+		}
+		s.Transitions.ForEach(func(_ any, toStates *array.Array[*nfa.State]) {
+			for _, toState := range toStates.Elements() {
+				pending.Push(toState)
+			}
+		})
+	}
+	return false
+}
+
 type ModeBuilder struct {
 	Name         string
 	StateFactory *nfa.StateFactory
@@ -57,6 +81,14 @@ func (m *ModeBuilder) Build(errs *errlogger.ErrLogger, fset *gotoken.FileSet) *M
 
 	for _, state := range d.States {
 		state.Data = m.pickAction(errs, fset, state)
+
+		// An accepting state is only non-greedy if one of the rules accepting
+		// there is a rule with a non-greedy repetition. Otherwise the mark would
+		// cut short a greedy rule that happens to share the state with a
+		// non-greedy rule that is not complete yet.
+		if state.Accept && !hasNonGreedyActions(state) {
+			state.NonGreedy = false
+		}
 	}
 
 	if errs.HasError() {
@@ -106,6 +138,16 @@ func (m *ModeBuilder) pickAction(
 	}
 
 	return winner
+}
+
+func hasNonGreedyActions(state *dfa.State) bool {
+	for _, nstate := range state.NFAStates {
+		actions, ok := nstate.Data.(*Actions)
+		if ok && actions.NonGreedy {
+			return true
+		}
+	}
+	return false
 }
 
 func New(name string) *ModeBuilder {
